@@ -949,3 +949,9 @@ m('C18', 'run --load: layered defaults to False (defect F31)', RUN,
 m('C18', 'parser: cache from the file replaces terminal load/save (defect F33)', PARSER,
   "            if 'cache' in from_terminal or key not in from_terminal:\n                files[key] = cache",
   "            files[key] = cache", 'C18.Q4.precedence')
+m('C08', 'jtvec: misfit not evaluated first (defect F34)', SIMS,
+  "        # Ensure residual and weights are the ones of this simulation.\n        _ = self.misfit\n\n", "",
+  'C08.V4.weights')
+m('C08', 'jtvec: layered mode not refused (defect F34)', SIMS,
+  "        if self.layered:\n            msg = \"`jtvec` is not implemented for `layered`.\"\n            raise NotImplementedError(msg)\n\n", "",
+  'C08.V4.weights')
